@@ -17,6 +17,7 @@ import (
 	"github.com/mitchellh/go-homedir"
 	"github.com/pgavlin/dawn/internal/mvs"
 	"github.com/pgavlin/dawn/internal/project"
+	"github.com/pgavlin/dawn/internal/verifhook"
 	"github.com/pgavlin/dawn/internal/spell"
 	"github.com/pgavlin/dawn/label"
 	"github.com/pgavlin/dawn/runner"
@@ -450,18 +451,31 @@ func (proj *Project) saveTargetInfo(label *label.Label, info targetInfo) error {
 	if err := os.MkdirAll(filepath.Dir(path), 0755); err != nil {
 		return err
 	}
+	if verifhook.Enabled {
+		verifhook.At("save.mkdir", label.String())
+	}
 
 	f, err := os.CreateTemp(proj.temp, "")
 	if err != nil {
 		return err
 	}
 	tempName := f.Name()
+	if verifhook.Enabled {
+		verifhook.At("save.created", label.String(), tempName)
+	}
 
 	if err = json.NewEncoder(f).Encode(info); err != nil {
 		return err
 	}
+	if verifhook.Enabled {
+		verifhook.At("save.written", label.String(), tempName)
+	}
 	if err = f.Close(); err != nil {
 		return err
+	}
+	if verifhook.Enabled {
+		verifhook.At("save.closed", label.String(), tempName)
+		defer verifhook.At("save.renamed", label.String(), path)
 	}
 
 	return os.Rename(tempName, path)
@@ -511,6 +525,9 @@ func (proj *Project) loadPackage(wg *sync.WaitGroup, path string) error {
 func (proj *Project) loadModule(waiter *module, label *label.Label) (starlark.StringDict, error) {
 	proj.m.Lock()
 	if m, ok := proj.modules[label.String()]; ok {
+		if verifhook.Enabled {
+			verifhook.At("registry.hit", waiterName(waiter), label.String())
+		}
 		proj.m.Unlock()
 
 		if waiter != nil {
@@ -524,6 +541,9 @@ func (proj *Project) loadModule(waiter *module, label *label.Label) (starlark.St
 	m := &module{label: label, out: newLineWriter(label, proj.events)}
 	m.cond = sync.NewCond(&m.m)
 	proj.modules[label.String()] = m
+	if verifhook.Enabled {
+		verifhook.At("registry.miss", waiterName(waiter), label.String())
+	}
 	proj.m.Unlock()
 
 	if waiter != nil {
